@@ -1,6 +1,6 @@
 /-
-  C04 — close and reopen reproduces the same logical content (stage 1: databases whose journal has
-  not been rotated, i.e. no sealed journals; log-level model `Db.Log`).
+  C04 — close and reopen reproduces the same logical content (log-level model `Db.Log`; histories
+  with journal rotation, sealed journals and their eviction included).
 -/
 import FjallModel.Lemmas.DbReach
 namespace Fjall.Db
@@ -15,12 +15,14 @@ theorem c04_replay_idempotent (m : KMap) (z y1 rest : List LOp)
 
 /-- **Reopen reproduces every keyspace**, after any history of keyspace creation / deletion,
     writes, batches, clears, memtable rotations, flushes, bulk ingestion of values,
-    compaction-induced lowering of the highest persisted seqno (tombstone eviction), and any number
-    of earlier reopen cycles with further writes in between.  Recovery replays only the journal
-    records above the highest seqno found in a keyspace's tables (repaired, F2 / F3 / F13).
+    compaction-induced lowering of the highest persisted seqno (tombstone eviction), **journal
+    rotations, eviction of sealed journals**, and any number of earlier reopen cycles with further
+    writes in between.  Recovery replays the sealed journals oldest first and then the active one,
+    each record only if it is above the highest seqno found in its keyspace's tables before replay
+    (repaired, F2 / F3 / F13), sealing the memtables after every sealed journal.
     `ProgWF` asks that writes go through live handles, that ingestion carries no tombstones (see
     `c04_ingested_tombstone_comes_back`) and that observed persisted seqnos are physically possible. -/
-theorem c04_reopen_same_partial (ops : List DOp) (hwf : ProgWF {} ops) (id : KsId) :
+theorem c04_reopen_same (ops : List DOp) (hwf : ProgWF {} ops) (id : KsId) :
     ((drun {} ops).recover.absOf id).Equiv ((drun {} ops).absOf id) :=
   recover_abs _ (drun_inv {} ops dinv_init hwf) id
 
@@ -28,10 +30,14 @@ theorem c04_reopen_same_partial (ops : List DOp) (hwf : ProgWF {} ops) (id : KsI
 theorem c04_reopen_same_keyspaces (ops : List DOp) (hwf : ProgWF {} ops) :
     (drun {} ops).recover.kss.map (fun k => (k.id, k.name)) = (drun {} ops).kss.map (fun k => (k.id, k.name)) := by
   have h := drun_inv {} ops dinv_init hwf
-  rw [recover_kss_noSealed _ h.noSealed, List.map_map]
+  have hinv := recover_inv _ h
+  rw [recover_kss_eq _ h.nodup, List.map_map]
   apply List.map_congr_left
-  intro k _
-  simp only [Function.comp, replayKs_id]
+  intro k hk
+  obtain ⟨hrel, _, _⟩ := recover_ks_general (pbOf (drun {} ops)) k (lookup_pb _ h.nodup k hk) (drun {} ops).sealed
+    (drun {} ops).active.recs _ rfl
+  simp only [Function.comp]
+  rw [hrel.id, hrel.name, replayKs_id]
   congr 1
   -- names are never touched by replay
   have : ∀ (k : KsL) (recs : List Rec), (replayKs k recs).name = k.name := by
@@ -58,14 +64,19 @@ theorem c04_ingested_tombstone_comes_back :
   decide
 
 /-! Non-vacuity: create, write, flush, clear, write, reopen, write, reopen; ingestion over a
-    journaled key, tombstone eviction, reopen. -/
+    journaled key, tombstone eviction, reopen; two keyspaces with journal rotations, one flushed,
+    eviction, reopen. -/
 example : ProgWF {} [.createKs "a", .write [(1, .put [1] [2]), (1, .del [5])], .rotate 1, .flushSealed 1,
     .ingest 1 [([1], some [9]), ([7], some [7])], .write [(1, .del [7])], .rotate 1, .flushSealed 1,
     .lowerPersisted 1 (some 3), .reopen, .write [(1, .put [8] [8])], .reopen] := by
   decide
 
-example : ProgWF {} [.createKs "a", .write [(1, .put [1] [2])], .rotate 1, .flushSealed 1,
-    .write [(1, .clear)], .write [(1, .put [3] [4])], .reopen, .write [(1, .del [3])], .reopen] := by
+example :
+    let ops : List DOp := [.createKs "a", .createKs "b", .write [(1, .put [1] [1]), (2, .put [2] [2])], .rotateJournal,
+      .write [(1, .put [3] [3])], .rotate 1, .flushSealed 1, .rotateJournal, .maintenance, .write [(2, .del [2])],
+      .reopen, .rotate 2, .flushSealed 2, .maintenance]
+    ProgWF {} ops ∧ (drun {} ops).sealed.length = 0 ∧
+      ((drun {} ops).kss.map fun k => k.abs.toList) = [[([1], [1]), ([3], [3])], []] := by
   decide
 
 end Fjall.Db
